@@ -507,6 +507,16 @@ def _literal_alternatives(pattern):
             elif op is SC.SUBPATTERN:
                 sub = expand(list(arg[3]))
                 outs = [o + s for o in outs for s in sub]
+            elif op in (SC.MAX_REPEAT, SC.MIN_REPEAT) and arg[1] != SC.MAXREPEAT and arg[1] <= 3:
+                lo, hi, body = arg
+                sub = expand(list(body))
+                reps = []
+                for k in range(lo, hi + 1):
+                    cur = [""]
+                    for _ in range(k):
+                        cur = [c + s for c in cur for s in sub]
+                    reps += cur
+                outs = [o + r for o in outs for r in reps]
             else:
                 raise AnalysisError(f"single-pass regex: op {op} unsupported")
         return outs
